@@ -164,7 +164,7 @@ def run_check(prop, tier, base_seed, workers=16, budget_s=None, replay=None,
   mism, self_done = [], 0
   if self_idx:
     base_digest = {r['index']: r['out'].get('digest') for r in runs}
-    passes = [(7, 1)] if not selftest_only else [(0, 16), (7, 16), (11, 1)]
+    passes = [(7, 4)] if not selftest_only else [(0, 16), (7, 16), (11, 1)]
     seen = dict(base_digest)
     for hs, wk in passes:
       wk = min(wk, len(self_idx), workers if wk > 1 else 1)
